@@ -704,7 +704,8 @@ func (hp *HTTPProxy) isLocalhost(host string) bool {
 }
 
 func (hp *HTTPProxy) setBasicAuth(req *http.Request) error {
-	if req.Header.Get("Authorization") == "" {
+	// An Authorization field the client supplied is never replaced, whatever its value.
+	if _, ok := req.Header["Authorization"]; !ok {
 		if u := hp.creds.MatchURL(req.URL); u != nil {
 			p, _ := u.Password()
 			req.SetBasicAuth(u.Username(), p)
